@@ -185,6 +185,60 @@ def job_connect_faults(j):
     return n, res
 
 
+def job_removed(cfg):
+    """An id that settings() does not list (any more) is an unknown setting id: writing it transmits nothing and raises
+    ValueError.  Ids leave the list when the inverter rejects their registers during a monitoring call; every listed
+    setting is taken through that history: [registers refused, read_setting(id) / get_*(), write_setting(id, v) and the
+    high-level setter that uses it]."""
+    from .c17 import domain
+    out = {}
+    n = 0
+    base = prepare(cfg)
+    if base.call(base.inv.read_device_info)[0] != 'ok':
+        return 0, []
+    sids = [(s.id_, s.offset, max(1, (s.size_ + 1) // 2)) for s in base.inv.settings()]
+    HIGH = {'grid_export_limit': [('get_grid_export_limit', ()), ('set_grid_export_limit', (10,))],
+            'battery_discharge_depth': [('get_ongrid_battery_dod', ()), ('set_ongrid_battery_dod', (50,))]}
+    for sid, off, nregs in sids:
+        for reader in ['read_setting'] + ([HIGH[sid][0][0]] if sid in HIGH else []):
+            r = prepare(cfg)
+            inv, dev = r.inv, r.dev
+            r.call(inv.read_device_info)
+            s = [x for x in inv.settings() if x.id_ == sid]
+            if not s:
+                continue
+            dom = domain(s[0], False)
+            if dom is None:
+                continue
+            dev.refused = list(dev.refused) + [(off, off + nregs - 1)]
+            if reader == 'read_setting':
+                r.call(inv.read_setting, sid)
+            else:
+                r.call(getattr(inv, reader))
+            listed = sid in {x.id_ for x in inv.settings()}
+            dev.refused = [x for x in dev.refused if x != (off, off + nregs - 1)]     # the inverter would accept it now
+            calls = [('write_setting', (sid, dom[len(dom) // 2]))] + ([HIGH[sid][1]] if sid in HIGH else [])
+            for cname, args in calls:
+                l0 = len(dev.log)
+                res = r.call(getattr(inv, cname), *args)
+                n += 1
+                w = [q for q in dev.log[l0:] if q.get('fn') not in (3, 'read')]
+                if listed:
+                    continue          # still a known id: writing it is legal
+                if w or (cname == 'write_setting' and not (res[0] == 'exc' and res[1] == 'ValueError')):
+                    key = f"unlisted-id-not-written/{cfg['family']}/{cname}"
+                    out.setdefault(key, []).append(dict(
+                        key=key, clause='unknown setting id transmits no write and raises ValueError',
+                        replay=dict(part='removed', cfg=cfg, sid=sid),
+                        detail=dict(setting=sid, history=[f'registers {off}..{off + nregs - 1} refused', f'{reader}', f'{cname}{args}'],
+                                    listed_by_settings=listed, outcome=str(res)[:80], write_seen=str(w[0])[:100] if w else None)))
+    res = []
+    for key, lst in out.items():
+        lst[0]['n'] = len(lst)
+        res.append(lst[0])
+    return n, res
+
+
 def run_entry(kind, cfg):
     """connect()/discover() against the device model: only read requests."""
     from ..kernel import KLoop
@@ -316,6 +370,11 @@ def run(tier, seed, rep):
     for n, res in pmap(job_connect_faults, [(c, ka) for c in (cf_cfgs if tier == 'thorough' else cf_cfgs[:3]) for ka in (False, True)]):
         ncf += n
         rep.add_many(res)
+    nrem = 0
+    rcfgs = [c for c in cfgs if c['family'] != 'ES' and c['eco'] in ('off', 'charge')]
+    for n, res in pmap(job_removed, rcfgs if tier == 'thorough' else rcfgs[:4]):
+        nrem += n
+        rep.add_many(res)
     fams = [c for c in cfgs if c['eco'] == 'off' or c['family'] == 'DT']
     reps = {}
     for c in fams:
@@ -332,7 +391,7 @@ def run(tier, seed, rep):
                     dict(part='vacuity', cfg=c), dict(call=name))
     cov = dict(api_session_histories=_api['histories'], api_session_states=_api['states'],
                states=states, transitions=max(edges, 1), executions=total + ne + ns + ncf, traces_validated_against_impl=total + ne + ns + ncf,
-               connect_fault_runs=ncf,
+               connect_fault_runs=ncf, unlisted_id_write_attempts=nrem,
                read_sequences=total, entry_point_runs=ne, setter_calls=ns, distinct_read_outcomes=ocs, exhaustive=True,
                bound=f'BFS over read-only call sequences of depth <= {depth} ({len(READ_OPS)} calls) with state de-duplication x '
                      f'{len(cfgs)} configurations (families, capability fallbacks, eco-mode register contents); connect() and '
@@ -365,6 +424,9 @@ def replay(r):
             outs.append(str(do_read(rg, op))[:80])
             w += [q for q in rg.dev.log[l0:] if q.get('fn') not in (3, 'read')]
         return dict(outcomes=outs, violations=[str(x) for x in w])
+    if r['part'] == 'removed':
+        n, res = job_removed(cfg)
+        return dict(attempts=n, violations=[(v['key'], v['detail']['setting']) for v in res])
     if r['part'] == 'connect-fault':
         w, res, nconn = run_connect_fault(cfg, r['setter'], r['reader'], r['ka'], r['k'])
         return dict(outcome=str(res)[:100], connects=nconn, violations=[str(x) for x in w])
